@@ -311,15 +311,23 @@ func judge(run *hx.Run, l *linter, w *wsT, b *built, c lintCfg, what string, exp
 				Input: map[string]any{"config": c.String(), "files": b.texts, "expected": sortedKeys(want), "got": sortedKeys(got)}, Replay: replay})
 		}
 	}
-	// correspondence line
+	// correspondence line.  clean / dirty come from the operator's documentation-level EXPECTATION
+	// (which rules it set out to violate), not from what the implementation reported: the model
+	// answers with its Clean specification (cleanRule) evaluated rule by rule.
 	clean := "1"
+	dirtySet := map[string]bool{}
 	for _, e := range expected {
 		if conf[e.rule] && !unmodelled[e.rule] {
 			clean = "0"
+			dirtySet[e.rule] = true
 		}
 	}
+	dirty := "-"
+	if len(dirtySet) > 0 {
+		dirty = strings.Join(sortedKeys(dirtySet), ",")
+	}
 	line := "lint\t" + optsField(c.opts) + "\t" + strings.Join(modelled, ",") + "\t" + w.serialise()
-	run.Case(line, "clean="+clean+" others=1 "+strings.Join(sortedKeys(gotModelled), ";"), len(gotModelled) > 0)
+	run.Case(line, "clean="+clean+" dirty="+dirty+" "+strings.Join(sortedKeys(gotModelled), ";"), len(gotModelled) > 0)
 	run.Count(fmt.Sprintf("B:lint:%v:%s", c.version, strings.Join(c.use, "+")))
 	for _, a := range anns {
 		run.Count("B:annotation:" + a.rule)
